@@ -287,7 +287,7 @@ class C05(common.Spec):
 
     def emit(self, case, obs):
         if obs['harness'] is not None or obs['ok'] is None:
-            raise common.Broken(f"C05 harness problem: {obs['harness']} on {case}")
+            raise common.HarnessProblem(f"C05 harness problem: {obs['harness']} on {case}")
         specs = permuted(case['base'], case['perm'])
         return ("(Build_icase " + clist([c_spec(s) for s in specs]) + " " + cbool(case['cblock'] in ('fail', 'undef')) + " "
                 + clist([f"({CALLS[t]} {cnat(p)})" for t, p in obs['log']]) + " " + cbool(obs['ok'])
